@@ -231,6 +231,8 @@ func histCatalogue() []hprog {
 			Variants: [][]int{{0}, {1}, {2}}, Files: []hfile{lit("cfg.txt"), globf("x.cfg", "v0", "v1")}},
 		// a task without commands (it only groups dependencies) next to an ordinary one
 		{Name: "P26-task-without-commands", Tasks: []htask{{Name: "te", Lits: []string{"e.txt"}, Empty: true}, {Name: "ta", Deps: []string{"te"}, Lits: []string{"a.txt"}}}, Files: []hfile{lit("e.txt"), lit("a.txt")}},
+		// two dependencies whose names differ only in letter case
+		{Name: "P27-names-differing-in-case", Tasks: []htask{{Name: "ta", Lits: []string{"cfg.h", "Cfg.h"}}, {Name: "tb", Globs: []string{"*.H"}}}, Files: []hfile{lit("cfg.h"), lit("Cfg.h"), globf("x.H", "v0"), globf("x.h", "v0", "v1")}},
 		{Name: "P8-three-tasks", Tasks: []htask{{Name: "ta", Lits: []string{"a.txt"}}, {Name: "tb", Lits: []string{"b.txt"}}, {Name: "tc", Deps: []string{"ta", "tb"}}}, Files: []hfile{lit("a.txt"), lit("b.txt")}},
 	}
 }
